@@ -238,8 +238,9 @@ class OffsetOperandStub:
                         return Symbol(token.ctx_start, token.ctx_end, token.representation, is_necessarily_label=True)
                 elif isinstance(token, (Symbol, InstructionPointer)):
                     fixup_active = False
-                else:
-                    assert False  # TODO: really?
+                # Anything else (decimal or radix-prefixed numbers, character
+                # literals, bracketed subexpressions) cannot be a local label
+                # and is left as is
                 return token
             fixup_label(operand)
 
